@@ -14,6 +14,9 @@ for pid in sorted(b):
     for i, r in enumerate(b[pid][tier]["runs"]):
         if r.get("expect") or "solver" in r:
             continue
+        sel = os.environ.get("CALIB_ONLY")
+        if sel and f"{pid}:{i}" not in sel.split(","):
+            continue
         args = ["/verif/bin/symgo", "run", "--harness", r["harness"], "--budget", str(budget)]
         for k, v in r["params"].items():
             args += ["-p", f"{k}={v}"]
